@@ -37,6 +37,13 @@ PROP = {'rule': 'rapid-generated cases, one unit per package. '
          'third of the crash points, a drawn subset of the quota objects delivered after the pod events (parking + migration); '
          'model: every pod is held by exactly one quota (its own in its own tree, or the default quota of the default tree) and '
          'bound pods are charged there and to the ancestors. '
+         'device runs with the ResizePod gate on and adds the clause that what pre-bind + bind persist for a Reservation '
+         '(resize-allocatable annotation -> Status.Allocatable, and the reserve pod rebuilt from it) equals, per resource name, the '
+         'sum over the devices handed out at Reserve. schedcache drives the unified reservation event handler '
+         '(reservationEventHandlers) of a scheduler serving 1-2 profiles against the exported FakeScheduler cache: Reservations '
+         'naming served and unserved scheduler names are created, bound, ended, deleted, touched; the restarted scheduler gets the '
+         'persisted objects as adds (duplicates, unscheduled-then-bind); the reserve pods it holds (node, requests) must equal the '
+         'live ones and the model (exactly the Available reservations hold their allocatable on their node). '
          'numaPersistDecode: arbitrary PodAllocation values through preBindObject and the event handler. '
          'distinct = FNV-64 fingerprint of the full case.',
  'assumptions': ['strings carried in annotations (device ids, bus ids, reservation names/uids) are valid UTF-8, as everything that '
@@ -89,7 +96,11 @@ PROP = {'rule': 'rapid-generated cases, one unit per package. '
            {'name': 'quotaplugin',
             'pkg': 'pkg/scheduler/plugins/elasticquota',
             'files': ['C19/c19_quotaplugin_test.go'],
-            'tests': [{'run': 'TestVerifC19QuotaPluginReplay', 'quick': 600, 'thorough': 2000, 'steps': 25}]}],
+            'tests': [{'run': 'TestVerifC19QuotaPluginReplay', 'quick': 600, 'thorough': 2000, 'steps': 25}]},
+           {'name': 'schedcache',
+            'pkg': 'pkg/scheduler/frameworkext/eventhandlers',
+            'files': ['C19/c19_schedcache_test.go'],
+            'tests': [{'run': 'TestVerifC19SchedulerCacheReplay', 'quick': 1000, 'thorough': 4000, 'steps': 25}]}],
  'manifest': {'technique': 'property-based testing (rapid): round-trip and decode-idempotence of the bind-time annotation codecs; '
                            'model-based state machines whose every prefix is replayed into a fresh cache (differential live vs fresh '
                            'plus an explicit reference model)',
